@@ -26,6 +26,9 @@ pub struct Cfg {
     /// publication (explicit or automatic) fails. (The field name is historical.)
     #[serde(default)]
     pub sess_raptor: bool,
+    /// session OTI = Reed-Solomon GF(2^8) with two parity symbols: the FDT instances carry repair packets
+    #[serde(default)]
+    pub sess_rs: bool,
 }
 
 pub fn catalog_of(kind: u8) -> Vec<ObjSpec> {
@@ -59,7 +62,7 @@ pub fn catalog() -> Vec<ObjSpec> {
 }
 
 pub fn sess(c: &Cfg) -> SessSpec {
-    let mut s = SessSpec::basic(if c.sess_raptor { OtiSpec::new(Scheme::Rs28, 512, 64, 0, true) } else { OtiSpec::new(Scheme::NoCode, c.fdt_e, 64, 0, true) });
+    let mut s = SessSpec::basic(if c.sess_rs { OtiSpec::new(Scheme::Rs28, 256, 64, 2, true) } else if c.sess_raptor { OtiSpec::new(Scheme::Rs28, 512, 64, 0, true) } else { OtiSpec::new(Scheme::NoCode, c.fdt_e, 64, 0, true) });
     s.full_fdt = c.full_fdt;
     s.queues = (0..c.queues).map(|q| (q as u32, c.multiplex)).collect();
     s
@@ -279,22 +282,27 @@ pub fn configs() -> Vec<Cfg> {
                     if fdt_e == 1424 && (multiplex == 2 || queues == 1) {
                         continue;
                     }
-                    v.push(Cfg { full_fdt, multiplex, queues, fdt_e, catalog_kind: 0, sess_raptor: false });
+                    v.push(Cfg { full_fdt, multiplex, queues, fdt_e, catalog_kind: 0, sess_raptor: false, sess_rs: false });
                     if fdt_e == 512 {
-                        v.push(Cfg { full_fdt, multiplex, queues, fdt_e, catalog_kind: 1, sess_raptor: false });
-                        v.push(Cfg { full_fdt, multiplex, queues, fdt_e, catalog_kind: 2, sess_raptor: false });
+                        v.push(Cfg { full_fdt, multiplex, queues, fdt_e, catalog_kind: 1, sess_raptor: false, sess_rs: false });
+                        v.push(Cfg { full_fdt, multiplex, queues, fdt_e, catalog_kind: 2, sess_raptor: false, sess_rs: false });
                         if queues == 2 {
-                            v.push(Cfg { full_fdt, multiplex, queues, fdt_e, catalog_kind: 3, sess_raptor: false });
+                            v.push(Cfg { full_fdt, multiplex, queues, fdt_e, catalog_kind: 3, sess_raptor: false, sess_rs: false });
                         }
                     }
                 }
             }
         }
     }
+    // FDT instances protected by repair packets
+    for full_fdt in [true, false] {
+        v.push(Cfg { full_fdt, multiplex: 2, queues: 1, fdt_e: 512, catalog_kind: 0, sess_raptor: false, sess_rs: true });
+        v.push(Cfg { full_fdt, multiplex: 1, queues: 2, fdt_e: 512, catalog_kind: 1, sess_raptor: false, sess_rs: true });
+    }
     // publications that fail (see `sess_raptor`)
     for full_fdt in [true, false] {
-        v.push(Cfg { full_fdt, multiplex: 1, queues: 1, fdt_e: 512, catalog_kind: 0, sess_raptor: true });
-        v.push(Cfg { full_fdt, multiplex: 2, queues: 2, fdt_e: 512, catalog_kind: 0, sess_raptor: true });
+        v.push(Cfg { full_fdt, multiplex: 1, queues: 1, fdt_e: 512, catalog_kind: 0, sess_raptor: true, sess_rs: false });
+        v.push(Cfg { full_fdt, multiplex: 2, queues: 2, fdt_e: 512, catalog_kind: 0, sess_raptor: true, sess_rs: false });
     }
     v
 }
